@@ -69,6 +69,13 @@ def py_val(j: Any) -> Any:
             return [py_val(x) for x in j["l"]]
         if "s" in j:
             return _EMIT_SENTINEL
+        # containers outside the Lean value universe (Python-side families only)
+        if "d" in j:
+            return {py_val(k): py_val(v) for k, v in j["d"]}
+        if "S" in j:
+            return {py_val(x) for x in j["S"]}
+        if "F" in j:
+            return frozenset(py_val(x) for x in j["F"])
     raise ValueError(f"bad value encoding: {j!r}")
 
 
@@ -86,6 +93,10 @@ def enc_val(v: Any) -> Any:
         return {"l": [enc_val(x) for x in v]}
     if isinstance(v, UserErr):
         return {"err": v.tag}
+    if type(v) is dict:
+        return {"d": sorted(([enc_val(k), enc_val(x)] for k, x in v.items()), key=repr)}
+    if type(v) in (set, frozenset):
+        return {"S" if type(v) is set else "F": sorted((enc_val(x) for x in v), key=repr)}
     return {"other": type(v).__name__}
 
 
